@@ -304,3 +304,28 @@ Example C10_7z_from_bytes_satisfiable :
   && wf_archive (fun _ => 7) (area7z [] L2) hb = true.
 Proof. vm_compute. reflexivity. Qed.
 Print Assumptions C10_7z_from_bytes_satisfiable.
+
+(* ---------------------------------------------------------------- path labels, for EVERY stored member name (relative or
+   not: '/abs/x', './x', 'a//x', '../x', 'C:\x' ...): the label is the archive path, "!/", and the stored name *)
+Theorem C10_path_label :
+  forall (c : N) (a filename : str), full_path (Some (c :: a)) filename = (c :: a) ++ s "!/" ++ filename.
+Proof. reflexivity. Qed.
+Print Assumptions C10_path_label.
+
+(* ZIP and TAR member loops: the labels of the yielded results are exactly archive!/name of the supported visible members,
+   in archive order (results observed through their path: extract := fun _ _ p => [p]) *)
+Theorem C10_zip_labels :
+  forall (T : tables) supported lower (rv : revision) (flags : N) (apath : option str) (ms : list member),
+    N.testbit flags 0 = false -> (max_memory T <=? max_archive_file T) = true ->
+    yields (read_zip (list N) T supported lower label_of rv (Some (map (zinfo_of flags) ms)) apath)
+    = map (fun m => full_path apath (m_name m)) (filter (want T supported lower) ms).
+Proof. intros. rewrite members_exact_zip by assumption. cbn [yields]. apply labels_expected. assumption. Qed.
+Print Assumptions C10_zip_labels.
+
+Theorem C10_tar_labels :
+  forall (T : tables) supported lower (apath : option str) (ms : list member),
+    (max_memory T <=? max_archive_file T) = true ->
+    yields (read_tar (list N) T supported lower label_of (Some (map tinfo_of ms)) apath)
+    = map (fun m => full_path apath (m_name m)) (filter (want T supported lower) ms).
+Proof. intros. rewrite members_exact_tar. cbn [yields]. apply labels_expected. assumption. Qed.
+Print Assumptions C10_tar_labels.
